@@ -72,7 +72,8 @@ def handle (l : Line) : IO Unit := do
     let b := slowPath num
     -- (the slow path is reached only after `underscoreOK`; `d.set` alone skips every underscore)
     let chk := if !underscoreOK num || (a.val == b.val && a.err == b.err) then "ok" else s!"BAD:{fr a}:{fr b}"
-    IO.println s!"obs {id} sl={slm} chk={chk}"
+    -- the fully mirrored parser (no specification inside) against the real ParseFloat / reader atof
+    IO.println s!"obs {id} sl={slm} chk={chk} pfm={fr (parseFloatMirror num)} ram={fr (readerAtofMirror num)}"
     if l.getD "spec" == "1" then
       let sv := parseFloatSpec num
       let si := parseIntSpec iters
